@@ -22,8 +22,8 @@ impl Property for C05 {
     const ISOLATE: bool = false;
     fn plan(tier: Tier) -> Plan {
         match tier {
-            Tier::Quick => Plan { shards: 16, cases_per_shard: 2500, max_shrink_iters: 600 },
-            Tier::Thorough => Plan { shards: 16, cases_per_shard: 75000, max_shrink_iters: 1500 },
+            Tier::Quick => Plan { shards: 16, cases_per_shard: 6000, max_shrink_iters: 600 },
+            Tier::Thorough => Plan { shards: 16, cases_per_shard: 150000, max_shrink_iters: 1500 },
         }
     }
     fn strategy(tier: Tier) -> BoxedStrategy<Case> {
@@ -43,7 +43,7 @@ impl Property for C05 {
         }
     }
     fn rule() -> String {
-        "proptest-generated (data model of 2-4 entities in 1-3 namespaces with typed scalar fields, defaults, nullable fields, single/array/self references and one model evolution step; 2-12 real mutations with nested creation, linking by id, updates, signed or unsigned, in rooms or not; a query of the grammar with aliases, nesting depth <= 3, filters, order_by, first/skip, before/after, nullable(), aggregates, json selectors, sys_peer/sys_room) decided against a reference evaluator over rows read back from _node/_edge, plus a paging walk; non-trivial = a root level shows at least one row and (has an ordering, a nested entity or an aggregate, or its filters/paging removed at least one row of the table); distinct = distinct case digest".to_string()
+        "proptest-generated triple: (1) a data model of 2-4 entities in 1-3 namespaces, 1-5 scalar fields of every type (required / nullable / default), 0-2 single or array references (self and cross, nullable or not) and one evolution step (a field added later, or a nullable field that gets a default); (2) 3-12 (thorough 3-18) real mutations: nested creation up to depth 2, linking by id, updates incl. null, signed by 0-2 keys, in 0-2 rooms, with clock ticks; (3) a query of the grammar: 1-2 roots, aliases, nesting depth <= 3 incl. sys_peer / sys_room, filters (= != < <= > >= null, on fields, aliases, references, json selectors, aggregates; literal or variable; values drawn from the stored rows, near misses, pools), order_by on 1-4 keys, first / skip (literal or variable), before / after taken from a row of the result, nullable(), aggregates with grouping and having, json selectors. Decided against a reference evaluator over the rows read back from _node / _edge (validity predicate under ties), then a paging walk (first n + after(last keys) until empty, or before(K) ++ K ++ after(K)) compared with the full ordered result. 80 % of the cases exclude the shapes of known findings by construction (counters excluded:*), 20 % exclude nothing. Non-trivial = a root level shows at least one row and (has an ordering, a nested entity or an aggregate, or its filters / paging removed at least one row of the table); distinct = distinct case digest. Fixed cases: 6 self tests of the evaluator against expected strings of the repository's query_test.rs".to_string()
     }
     fn assumptions() -> Vec<String> {
         vec![
@@ -52,7 +52,9 @@ impl Property for C05 {
             "a boolean default is accepted as 1/0 (asserted by the repository's test query_with_null_default)".into(),
             "where order_by leaves ties (or is absent) any order consistent with the keys is accepted; a page under ties must contain the right number of rows of every tie class".into(),
             "ordering by a model field name is accepted on the stored value (NULL for rows lacking a later-added defaulted field) as well as on the value with default (DESIGN.md); counted as label tolerated:order-by-ignores-default".into(),
-            "string literals avoid quotes and backslashes (escaping is property C04)".into(),
+            "string literals avoid quotes and backslashes (escaping is property C04); Json fields are never set to an explicit null (panics, property C14)".into(),
+            "the 1 % sample through the service threads foreseen in DESIGN.md is not implemented: every case uses the in-memory path".into(),
+            "when a mismatch is found, the classifier re-evaluates with switches reproducing diagnosed deviations; a mismatch that no combination explains is reported as unexplained:<kind>".into(),
         ]
     }
 }
